@@ -506,6 +506,8 @@ def proves(ctx, cond):
         return True
     if z3.is_false(c):
         return False
+    if hasattr(ctx, '_budget'):
+        ctx._budget()
     return ctx.solver.check(z3.Not(c)) == z3.unsat
 
 
